@@ -41,7 +41,7 @@ def cases(tier, seed):
         out.append({'part': 'random', 'seed': seed * 100003 + i})
     for j in range(0, 12):
         out.append({'part': 'negotiation', 'lost': j, 'seed': seed})
-    for i in range(6 if tier == 'quick' else 60):
+    for i in range(16 if tier == 'quick' else 80):
         out.append({'part': 'stack', 'seed': seed * 100003 + i})
     return out
 
